@@ -3,6 +3,7 @@ package endpoints
 import (
 	"IG-Parser/core/exporter/tabular"
 	"IG-Parser/core/parser"
+	"IG-Parser/core/shared"
 	"IG-Parser/core/tree"
 )
 
@@ -36,6 +37,8 @@ func ConvertIGScriptToTabularOutput(originalStatement string, statement string, 
 	// Clean input from potential cell separator character (separately performed for original statement and
 	// IG Script statement potentially included in output)
 	statement = tabular.CleanInput(statement, separator)
+	// Likewise clean statement ID (used as first cell of every row)
+	stmtId = shared.EscapeSymbolsForExport(tabular.CleanInput(stmtId, separator))
 
 	// Parse IGScript statement into tree
 	stmts, err := parser.ParseStatement(statement)
